@@ -204,18 +204,49 @@ def raising_site(ex):
     return "(outside library)"
 
 
+ALPHA_NOW = ALPHA
+
+
 def script_worker(task):
+    global ALPHA_NOW
     lo, hi, alpha, maxlen = task
+    ALPHA_NOW = alpha
     Scripted0 = make_scripted()
     Real = make_real_scripted()
     n = 0
     viols = []
     nontriv = 0
     for name, mk, support in cases()[lo:hi]:
+        try:
+            with common.time_limit(20 if len(alpha) <= len(ALPHA) else 900,
+                                   "drawing from %s" % name):
+                a_, b_ = _script_case(name, mk, support, Scripted0, Real,
+                                      alpha, maxlen, viols)
+                n += a_
+                nontriv += b_
+        except common.LibraryHang as ex:
+            viols.append(("C14:draw-does-not-return:%s" % name.split("(")[0],
+                          "%s: %s" % (name, ex), {"case": name, "script": []},
+                          0))
+    # collapse
+    best = {}
+    cnt = {}
+    for v in viols:
+        rank = v[3] if len(v) > 3 else 0
+        cnt[v[0]] = cnt.get(v[0], 0) + 1
+        if v[0] not in best or rank < best[v[0]][3]:
+            best[v[0]] = (v[0], v[1], v[2], rank)
+    return n, nontriv, [b + (cnt[b[0]],) for b in best.values()]
+
+
+def _script_case(name, mk, support, Scripted0, Real, alpha, maxlen, viols):
+    n = 0
+    nontriv = 0
+    if True:
         Scripted = Scripted0
         if name.endswith("@MT"):
             if Real is None:
-                continue
+                return 0, 0
             Scripted = Real
         seen_sig = set()
         for L in range(1, maxlen + 1):
@@ -313,15 +344,22 @@ def script_worker(task):
                                        "script": list(script)}, used))
                 except Exception:  # noqa
                     pass
-    # collapse
-    best = {}
-    cnt = {}
-    for v in viols:
-        rank = v[3] if len(v) > 3 else 0
-        cnt[v[0]] = cnt.get(v[0], 0) + 1
-        if v[0] not in best or rank < best[v[0]][3]:
-            best[v[0]] = (v[0], v[1], v[2], rank)
-    return n, nontriv, [b + (cnt[b[0]],) for b in best.values()]
+    return n, nontriv
+
+
+def _limited(iterable, name, viols, seconds=None):
+    """iterate under a wall-clock limit per case: a sampler that never
+    returns (without even consuming stream numbers) becomes a violation"""
+    it = iter(iterable)
+    if seconds is None:
+        seconds = 20 if len(ALPHA_NOW) <= len(ALPHA) else 900
+    try:
+        with common.time_limit(seconds, "drawing from %s" % name):
+            for x in it:
+                yield x
+    except common.LibraryHang as ex:
+        viols.append(("C14:draw-does-not-return:%s" % name.split("(")[0],
+                      "%s: %s" % (name, ex), {"case": name, "script": []}, 0))
 
 
 def seq_of(d, k):
@@ -348,6 +386,19 @@ def interplay_worker(task):
         if name in ("Geometric(0.0)", "Geometric(1.0)", "NegBinomial(2,0.0)",
                     "NegBinomial(2,1.0)") or name.endswith("@MT"):
             continue
+        try:
+            with common.time_limit(30, "drawing from %s" % name):
+                n += _interplay_case(name, mk, support, partners, Scripted,
+                                     K, viols)
+        except common.LibraryHang as ex:
+            viols.append(("C14:draw-does-not-return:%s" % name.split("(")[0],
+                          "%s: %s" % (name, ex), {"case": name}))
+    return n, viols
+
+
+def _interplay_case(name, mk, support, partners, Scripted, K, viols):
+    n = 0
+    if True:
         alone = seq_of(mk(Scripted(weyl(200))), K)
         # (a) same parameters on equally delivering streams, instances
         #     created in the presence of other instances
@@ -493,7 +544,7 @@ def interplay_worker(task):
                         "%s, fresh instance on a fresh stream: %s" % (
                             name, before, how, got, fresh),
                         {"case": name, "before": before}))
-    return n, viols
+    return n
 
 
 def extreme_parameter_cases():
@@ -545,7 +596,13 @@ def extreme_parameter_worker(idx):
     for i in range(400):
         n += 1
         try:
-            x = d.draw()
+            with common.time_limit(10, "drawing from %s" % name):
+                x = d.draw()
+        except common.LibraryHang as ex:
+            viols.append(("C14:draw-does-not-return:%s" % name.split("(")[0],
+                          "%s: draw #%d: %s" % (name, i, ex),
+                          {"part": "extreme", "case": name}))
+            break
         except Exception as ex:  # noqa
             viols.append(("C14:draw-raises:%s:%s:%s:extreme-parameters" % (
                 name.split("(")[0], type(ex).__name__, raising_site(ex)),
@@ -644,7 +701,10 @@ def grid_worker(fam):
             n += 1
             st = Budgeted(sc, tail=tail)
             d = cls(st, *args)
+            if ("draw-does-not-return", "", reg) in found:
+                break
             try:
+              with common.time_limit(10, "drawing"):
                 for _ in range(3 if sc else 25):
                     st.mark = st.i
                     x = d.draw()
@@ -654,6 +714,9 @@ def grid_worker(fam):
                     elif not support(x):
                         found.setdefault(("outside-support", "", reg),
                                          (args, sc, repr(x)))
+            except common.LibraryHang as ex:
+                found.setdefault(("draw-does-not-return", "", reg),
+                                 (args, sc, str(ex)))
             except _Budget:
                 found.setdefault(("draw-does-not-return", "", reg),
                                  (args, sc, "more than 100000 stream numbers "
